@@ -104,3 +104,14 @@ def prom_proc_missing_for_values_without_source_context(case, mismatch):
 
 
 PREDICATES['prom_proc_missing_for_values_without_source_context'] = prom_proc_missing_for_values_without_source_context
+
+
+def race_close_vs_send_handoff(case, mismatch):
+    """the close of the hand-off channel (teardown) racing with a send of the producer, in ToChannel or detachOn (ObserveOn / SubscribeOn)"""
+    pair = case.get('pair', [])
+    files = {p.split(':')[0] for p in pair}
+    prims = {p.split(':')[-1] for p in pair}
+    return files <= {'operator_sink.go', 'operator_utility.go'} and prims <= {'closechan', 'chansend', 'chansend1'} and 'closechan' in prims
+
+
+PREDICATES['race_close_vs_send_handoff'] = race_close_vs_send_handoff
